@@ -1,24 +1,48 @@
-"""C03 - string operations mean the same folded and solved, for every character (bounded only)."""
+"""C03 - string operations mean the same folded and solved, for every character.  Mixed: every concrete string operation proved equal to the
+Z3 translation for all strings up to a stated length over ALL characters and all 64-bit integers; longer strings and the constant
+translation bounded."""
 from vf.common import task
 
-LEVEL = "exploration"
-LEVEL_TEXT = ("Bounded stand-in, never counted as proved: the concrete string backend works on Python str (slicing, replace, index, int()), which the "
-              "contract engine's proxies do not model, and z3/cvc5 leave most sequence-theory VCs over unbounded strings open.  Every string "
-              "constructor is folded on strings over an alphabet of awkward characters (NUL, backslash, regex metacharacters, newline, non-ASCII, "
-              "astral, digits, sign, escape-looking text) and on boundary indices (0, 1, len, len+1, 2^63, 2^64-1) and compared with z3's exact "
-              "evaluation of the same SMT-LIB term on literals built from code points; every constant must reach the solver as its characters.")
-TECHNIQUE = "bounded alphabet/boundary enumeration against z3's exact evaluation of ground string terms (stand-in)"
+LEVEL = "other"
+LEVEL_TEXT = ("Mixed.  PROVED (bounded in string length, complete in characters and integers): each concrete string operation of "
+              "backend_concrete/strings.py is executed on symbolic strings - concrete length up to 3 per operand, every character a free z3 Char "
+              "constant (the whole Unicode range of the string theory), every integer argument a free 64-bit value held by the real concrete BVV "
+              "class - with the Python str methods it calls answered by their library contract (slicing with clamping, replace-first, search, "
+              "prefix/suffix, index with ValueError, join, iteration, int() of ASCII digit strings, str() of a non-negative integer, str.isdigit / "
+              "isdecimal from the interpreter's own Unicode tables), and z3 proves  fold(args) == [[the Z3 translation of the same operation]]  "
+              "under the path condition: StrConcat, StrSubstr, StrReplace, StrLen, StrContains, StrPrefixOf, StrSuffixOf (sequence theory on "
+              "fixed-length strings of symbolic characters), ==/!= on folded constants, StrIndexOf (integer-domain reference tied to the 64-bit "
+              "argument), StrToInt / IntToStr (z3 does not decide str.to_int / str.from_int over symbolic characters: the SMT-LIB definitions are "
+              "transcribed - decimal numeral or -1, digits of the UNSIGNED argument without leading zeros).  The real BackendZ3._op_raw_Str* "
+              "translations are proved, term for term, to be the SMT-LIB functions with the bv2nat / int2bv conversions those references use.  A "
+              "foreign exception on a feasible path is a failed obligation.  BOUNDED (never counted as proved): longer strings over an alphabet of "
+              "awkward characters and boundary indices against z3's exact evaluation of ground terms; the translation of string constants "
+              "(escape syntax) exhaustively over short strings of escape characters.")
+EXPLANATION = ("proved: 12 fold obligations + 1 translation obligation, strings of length <= 3 (<= 2 for the second operand), all characters, all 64-bit "
+               "integers; bounded: alphabet/boundary enumeration against z3's evaluation of ground string terms")
+TECHNIQUE = "contract-based deductive verification of the real concrete string backend on fixed-length strings of symbolic characters against the real Z3 translation (pyvc, z3 sequence theory) + bounded alphabet/boundary enumeration"
 RULE = "see per-task rule; exhaustive over the stated string and index sets"
-FUNCTIONS = []
-TRUSTED = ["z3 evaluates ground string terms exactly"]
-ASSUMPTIONS = ["strings of length <= 2 over the 15-character alphabet plus the listed digit/sign/escape cases",
+M = "vf.contracts.strfold"
+FUNCTIONS = ["backend_concrete.strings." + f for f in ["StrConcat", "StrSubstr", "StrReplace", "StrLen", "StrContains", "StrPrefixOf", "StrSuffixOf", "StrIndexOf", "StrToInt",
+                                                       "IntToStr", "StringV.__eq__", "StringV.__ne__"]] + \
+            ["BackendZ3._op_raw_" + f for f in ["StrConcat", "StrSubstr", "StrLen", "StrReplace", "StrContains", "StrPrefixOf", "StrSuffixOf", "StrIndexOf", "StrToInt", "IntToStr"]]
+TRUSTED = ["z3 4.13 sequence theory (decides the VCs); z3 evaluates ground string terms exactly (bounded part)",
+           "ASSUMED library contracts of the Python str methods (vf/contracts/strfold.py:SymStr, vf_int, vf_str), stated operationally on character lists; "
+           "str.isdigit / str.isdecimal are the running interpreter's tables",
+           "SMT-LIB str.to_int / str.from_int transcribed for the two conversions (z3 cannot decide them over symbolic characters)"]
+ASSUMPTIONS = ["string length <= 3 (first operand) / <= 2 (patterns) / 1 (replacement, third concat operand); complete in characters and 64-bit integers",
+               "int() of strings with a non-ASCII-digit character other than 'isdigit but not isdecimal' is havoc (the folding code never reaches it on the unchanged tree)",
+               "bounded part: strings of length <= 2 over the 15-character alphabet plus the listed digit/sign/escape cases",
                "constant translation: exhaustive over all strings of length <= 5 over the 9 characters of Z3's escape syntax (backslash u { } x 4 8 5 c) that contain a backslash"]
 
 
 def tasks(tier, seed=0):
     from vf import common
+    from vf.contracts import strfold
     kl = sorted({l for f in common.findings_for("C03") for l in f.get("labels", [])})
-    out = []
+    R = "vf.contracts.strfold:replay"
+    out = [task(M, "ob_fold", f"strings.{op}/folded-equals-solved", ["C03", "C04"], replay=R, op=op, tier=tier, maxlen=2 if tier == "quick" else 3) for op in strfold.OPS]
+    out.append(task(M, "ob_translation", "z3t.strings/is-the-smtlib-function", ["C03"], tier=tier))
     for g, n in (("rel", 4), ("index", 6), ("misc", 2), ("esc", 4)):
         for sh in range(n):
             out.append(task("vf.bounded.str_boundary", "run", f"str.{g}/bounded#{sh}", ["C03"], kind="bounded", replay="vf.bounded.str_boundary:replay",
